@@ -517,6 +517,8 @@ def ev_expr(e, env_, symbolic: bool):
         v = env_[e["var"]]
         if e.get("idx") is not None:
             v = v[e["idx"]]
+        if e.get("slice") is not None:
+            v = v[slice(*e["slice"])]
         return v
     if "cast" in e:
         a = ev_expr(e["a"], env_, symbolic)
